@@ -1,4 +1,7 @@
-"""C20 translator: AST walk of the tagging pipelines -> coq/Gen/GenStatus.v (terms of Lib.StatusLang.prog).
+"""C20 - status marker reports success only for a complete, sorted, indexed output.
+
+Part 1: translator (AST walk of the tagging pipelines -> coq/Gen/GenStatus.v, terms of Lib.StatusLang.prog).
+Part 2: the check (fault enumeration on the real pipelines vs the model).
 
 What is extracted (fail closed: anything outside the recognised subset raises Untranslatable):
   * every call, in evaluation order, of run_multiome_tagging, tag_multiome_single_thread,
@@ -654,3 +657,472 @@ def generate(repo):
     g = Gen(repo)
     g.build_all()
     return g
+
+
+# =============================================================================================
+# the check
+# =============================================================================================
+import json, time, itertools
+from concurrent.futures import ThreadPoolExecutor
+import fw
+
+GEN_PATH = os.path.join(fw.COQ, 'Gen', 'GenStatus.v')
+ST_NAMES = ['none', 'unfinished', 'FAIL', 'OK', 'other']
+KIND = {'exc': 1, 'base': 2, 'partial': 3, 'base_partial': 4}
+
+CONFIGS = {
+    'chic_s': {'method': 'chic', 'bam': 'chic', 'mp': False},
+    'chic_m': {'method': 'chic', 'bam': 'chic', 'mp': True},
+    'nla_s': {'method': 'nla', 'bam': 'nla', 'mp': False},
+    'nla_m': {'method': 'nla', 'bam': 'nla', 'mp': True},
+}
+
+L_SINGLE_LOOP = 'tag_multiome_single_thread/next(enumerate(molecule_iterator_exec))#0'
+L_JOB_LOOP = 'tag_multiome_multi_processing/next(job_generator)#0'
+LOOP_SINGLE = 'tag_multiome_single_thread: for (i, molecule) in enumerate(molecule_iterator_exec)'
+LOOP_JOBS = 'tag_multiome_multi_processing: for (bam, meta) in job_generator'
+LOOP_MERGE = 'merge_bams: for o in bams'
+CH_EXISTS = 'run_multiome_tagging: os.path.exists(remove_existing_path)'
+CH_MP = 'run_multiome_tagging: args.multiprocess'
+
+
+def inv_py(world):
+    """direct transcription of StatusLang.invb (used by search(), which must not need the model)"""
+    st, ex, co, so, ix = world[:5]
+    return st != 3 or (ex and co and so and ix)
+
+
+def describe(world):
+    st, ex, co, so, ix = world[:5]
+    return 'status=%s exists=%d complete=%d sorted=%d indexed=%d' % (ST_NAMES[st], ex, co, so, ix)
+
+
+class Prop(fw.PropBase):
+    ID = 'C20'
+    PROPS = 'Props/C20.v'
+    TRUSTED = [
+        'tools/c20.py translator (AST walk -> Gen/GenStatus.v): order of all calls, try/except structure, loops and '
+        'branches of run_multiome_tagging, tag_multiome_single_thread, tag_multiome_multi_processing, sorted_bam_file, '
+        'sort_and_index, merge_bams and the with block of run_tagging_tasks; the EFFECT of a call on the abstract world is '
+        'decided from the callee name and from whether it receives the output path (classify()); a call that does not '
+        'receive the output path is assumed not to touch <out>.bam/.bai/.status.txt (it can still fail)',
+        'modelled not verified: pysam.sort / pysam.merge produce a complete coordinate-sorted file from their inputs and '
+        'pysam.index a usable index (the correspondence check reads the real files back: EOF block, record identity '
+        'multiset, order, index fetch counts); a failing external call is modelled as raising either before any effect or '
+        'after a partial effect (truncated output / truncated status file)',
+        'partial: process death (kill -9, power loss, partial page writes) is not modelled - only Python exceptions '
+        '(Exception and non-Exception such as KeyboardInterrupt) at step boundaries; a BaseException inside a pool worker '
+        'makes multiprocessing.Pool hang (no status change) and is outside the model',
+        'not translated: the `if args.cluster:` branch of run_multiome_tagging (job submission; its merge job writes '
+        '"All done" itself), the body of run_tagging_task (one task = one unit), the options -head (truncates on purpose) '
+        'and -max_time_per_segment (TimeoutError in a worker is swallowed by design and the region blacklisted)',
+    ]
+    ASSUMPTIONS = [
+        '-head and -max_time_per_segment not given (both drop records on purpose); not --cluster',
+        'C20_fail_not_ok: the run does not start from a stale success marker and no blacklist temp files are cleaned '
+        'up after the pipeline (the clean-up loop runs after the success marker was written)',
+    ]
+
+    # ---------------------------------------------------------------- T
+    def regen(self):
+        self.gen = None
+        if os.path.exists(GEN_PATH):
+            os.remove(GEN_PATH)     # fail closed: a refused source leaves no stale Gen file behind
+        g = generate(fw.REPO)
+        text = g.coq()
+        with open(GEN_PATH, 'w') as f:
+            f.write(text)
+        self.gen = g
+        meta = list(g.meta)
+        meta.append({'file': 'coq/Gen/GenStatus.v', 'labels': len(g.labels), 'loops': len(g.loops),
+                     'choices': len(g.choices), 'notes': g.notes,
+                     'ok_write_after_with': self.ok_position(g)})
+        return meta
+
+    def ok_position(self, g):
+        """where the success marker is written, in words (evidence only)"""
+        d = dict(g.defs)
+        t = d.get('tag_multiome_single_thread_body', '')
+        i, j = t.find('EStatus SOk'), t.find('sorted_bam_file_post')
+        return {'single_thread': 'after sorted_bam_file exit code' if i > j >= 0 else 'BEFORE sorted_bam_file exit code (inside the with block)'}
+
+    # ---------------------------------------------------------------- cases
+    def cases(self):
+        quick = self.tier == 'quick'
+        out = []
+
+        def add(cfg, faults, pre='fresh', tag=None):
+            out.append({'config': cfg, 'faults': faults, 'pre': pre})
+
+        F = lambda point, **kw: dict(point=point, **kw)
+        for cfg in ('chic_s', 'nla_s'):
+            n = self.n_mol[cfg]
+            ks = sorted(set([0, 1, n // 2, n - 2, n - 1])) if quick else range(n)
+            ks = [k for k in ks if 0 <= k < n]
+            add(cfg, [])
+            add(cfg, [F('write_status', after=0)])
+            add(cfg, [F('write_status', after=0, kind='partial')])
+            add(cfg, [F('verify')])
+            add(cfg, [F('verify', kind='base')])
+            for k in ks:
+                add(cfg, [F('mol_next', after=k)])
+                add(cfg, [F('write_tags', after=k)])
+                add(cfg, [F('write_pysam', after=k)])
+            add(cfg, [F('write_pysam', after=ks[-1], kind='partial')])
+            add(cfg, [F('write_pysam', after=ks[0], kind='base')])
+            add(cfg, [F('mol_next', after=ks[len(ks) // 2], kind='base')])
+            add(cfg, [F('mol_end', total=n)])
+            add(cfg, [F('rg_header')])
+            add(cfg, [F('rg_header', kind='base')])
+            for j in (1, 2, 3):
+                add(cfg, [F('sort', first=j)])
+                add(cfg, [F('sort', first=j, kind='partial')])
+            add(cfg, [F('sort', first=3, kind='base')])
+            add(cfg, [F('index_out')])
+            add(cfg, [F('index_out', kind='base')])
+            add(cfg, [F('remove_unsorted')])
+            add(cfg, [F('write_status', after=1)])
+            add(cfg, [F('write_status', after=1, kind='partial')])
+            add(cfg, [F('sort', first=2), F('index_out')])
+            add(cfg, [F('sort', first=1, kind='partial'), F('write_status', after=1)])
+            # over the output of an earlier successful run
+            add(cfg, [], pre='prev_ok')
+            add(cfg, [F('write_status', after=0)], pre='prev_ok')
+            add(cfg, [F('verify')], pre='prev_ok')
+            add(cfg, [F('remove_out')], pre='prev_ok')
+            add(cfg, [F('remove_out_bai')], pre='prev_ok')
+            add(cfg, [F('write_pysam', after=ks[0])], pre='prev_ok')
+            add(cfg, [F('sort', first=3)], pre='prev_ok')
+            add(cfg, [F('sort', first=3, kind='partial')], pre='prev_ok')
+            add(cfg, [F('index_out')], pre='prev_ok')
+        for cfg in ('chic_m', 'nla_m'):
+            m = self.n_jobs[cfg]
+            add(cfg, [])
+            add(cfg, [F('write_status', after=0)])
+            add(cfg, [F('verify')])
+            add(cfg, [F('pool')])
+            for k in range(m):
+                add(cfg, [F('worker', after=k)])
+            n = self.n_mol[cfg]
+            wk = sorted(set([0, 1, n // 2])) if quick else range(0, n, max(1, n // 12))
+            for k in wk:
+                add(cfg, [F('write_pysam', after=k, where='worker')])
+                add(cfg, [F('mol_next', after=k, where='worker')])
+            add(cfg, [F('write_tags', after=0, where='worker')])
+            add(cfg, [F('sort_worker', first=3)])
+            add(cfg, [F('sort_worker', first=2)])
+            add(cfg, [F('rg_header_worker')])
+            add(cfg, [F('index_header')])
+            add(cfg, [F('merge_bams')])
+            add(cfg, [F('pysam_merge')])
+            add(cfg, [F('pysam_merge', kind='partial')])
+            add(cfg, [F('pysam_merge', kind='base')])
+            add(cfg, [F('index_out')])
+            add(cfg, [F('remove_merged_input', after=0)])
+            add(cfg, [F('rmtree')])
+            add(cfg, [F('rmtree', kind='base')])
+            add(cfg, [F('write_status', after=1)])
+            add(cfg, [F('write_status', after=1, kind='partial')])
+            add(cfg, [F('rmtree'), F('write_status', after=1)])
+            add(cfg, [], pre='prev_ok')
+            add(cfg, [F('worker', after=0)], pre='prev_ok')
+            add(cfg, [F('remove_out_bai')], pre='prev_ok')
+            add(cfg, [F('pysam_merge', kind='partial')], pre='prev_ok')
+            add(cfg, [F('index_out')], pre='prev_ok')
+            add(cfg, [F('write_status', after=1)], pre='prev_ok')
+        return out
+
+    # ---------------------------------------------------------------- fault -> model step
+    def label_plan(self, case):
+        """list of (label name, occurrence, kind code) in the order the faults happen in the run"""
+        mp = CONFIGS[case['config']]['mp']
+        plan = []
+        for f in case['faults']:
+            pt, kind = f['point'], KIND[f.get('kind', 'exc')]
+            worker_side = f.get('where') == 'worker' or pt in ('worker', 'sort_worker', 'rg_header_worker')
+            if mp and (worker_side or pt in ('write_pysam', 'write_tags', 'mol_next', 'mol_end')):
+                if pt == 'sort_worker' and f.get('first', 3) < 3:
+                    continue       # retried inside the worker: no failure visible to the pipeline
+                plan.append((L_JOB_LOOP, 0, 1))
+            elif pt == 'write_status':
+                if f['after'] == 0:
+                    plan.append(('run_multiome_tagging/write_status#0', 0, kind))
+                else:
+                    plan.append((self.ok_label(mp), 0, kind))
+            elif pt == 'verify':
+                plan.append(('run_multiome_tagging/verify_and_fix_bam#0', 0, kind))
+            elif pt == 'remove_out':
+                plan.append(('run_multiome_tagging/os.remove#0', 0, kind))
+            elif pt == 'remove_out_bai':
+                plan.append(('run_multiome_tagging/os.remove#1', 0, kind))
+            elif pt == 'mol_next':
+                plan.append((L_SINGLE_LOOP, f['after'], kind))
+            elif pt == 'mol_end':
+                plan.append((L_SINGLE_LOOP, f['total'], kind))
+            elif pt == 'write_tags':
+                plan.append(('tag_multiome_single_thread/molecule.write_tags#0', f['after'], kind))
+            elif pt == 'write_pysam':
+                plan.append(('tag_multiome_single_thread/write_pysam#0', f['after'], kind))
+            elif pt == 'rg_header':
+                plan.append(('sorted_bam_file/add_readgroups_to_header#0', 0, kind))
+            elif pt == 'sort':
+                for j in range(f['first']):
+                    plan.append(('sort_and_index/pysam.sort#%d' % j, 0, kind))
+            elif pt == 'index_out':
+                plan.append(('merge_bams/pysam.index#0' if mp else 'sort_and_index/pysam.index#0', 0, kind))
+            elif pt == 'remove_unsorted':
+                plan.append(('sort_and_index/os.remove#0', 0, kind))
+            elif pt == 'pool':
+                plan.append(('tag_multiome_multi_processing/Pool#0', 0, kind))
+            elif pt == 'index_header':
+                plan.append(('tag_multiome_multi_processing/pysam.index#0', 0, kind))
+            elif pt in ('merge_bams', 'pysam_merge'):
+                plan.append(('merge_bams/pysam.merge#0', 0, kind))
+            elif pt == 'remove_merged_input':
+                plan.append(('merge_bams/os.remove#0', f.get('after', 0), kind))
+            elif pt == 'rmtree':
+                plan.append(('tag_multiome_multi_processing/shutil.rmtree#0', 0, kind))
+            else:
+                raise fw.Broken('correspondence', 'no model step for fault point %r' % pt)
+        return plan
+
+    def ok_label(self, mp):
+        fn = 'tag_multiome_multi_processing' if mp else 'tag_multiome_single_thread'
+        # the label of the step that writes the success marker in that function
+        import re
+        body = dict(self.gen.defs)['%s_body' % fn]
+        ids = [int(x) for x in re.findall(r'Step (\d+) \(EStatus SOk\)', body)]
+        if len(ids) != 1:
+            raise fw.Broken('correspondence', '%s writes the success marker %d times' % (fn, len(ids)))
+        return self.gen.labels[ids[0]]
+
+    def model_input(self, case, faults_idx):
+        g = self.gen
+        cfg = case['config']
+        mp = CONFIGS[cfg]['mp']
+        cnts = []
+        for name in g.loops:
+            if name == LOOP_SINGLE:
+                cnts.append(self.n_mol[cfg])
+            elif name == LOOP_JOBS:
+                cnts.append(self.n_jobs[cfg])
+            elif name == LOOP_MERGE:
+                cnts.append(self.n_jobs[cfg] + 1)
+            else:
+                cnts.append(1)
+        chs = []
+        for name in g.choices:
+            v = name in STD_TRUE
+            if name == CH_MP:
+                v = mp
+            if name == CH_EXISTS:
+                v = case.get('pre') == 'prev_ok'
+            chs.append(1 if v else 0)
+        w0 = [3, 1, 1, 1, 1] if case.get('pre') == 'prev_ok' else [0, 0, 0, 0, 0]
+        return [w0, cnts, chs, [[k, kind] for k, kind in faults_idx]]
+
+    def predict(self, cases):
+        """model outcome per case; fault (label, occurrence) pairs are resolved to dynamic step indices
+        with the model's own trace, one fault at a time"""
+        g = self.gen
+        for name in (LOOP_SINGLE, LOOP_JOBS, CH_MP, CH_EXISTS):
+            if name not in g.loops and name not in g.choices:
+                raise fw.Broken('correspondence', 'loop / run-time test not found in the generated pipeline: %s' % name)
+        plans = [self.label_plan(c) for c in cases]
+        resolved = [[] for _ in cases]
+        depth = max([len(p) for p in plans] + [0])
+        outs = None
+        for rnd in range(depth + 1):
+            inputs = [self.model_input(c, resolved[i]) for i, c in enumerate(cases)]
+            outs = fw.run_model('C20', 0, inputs)
+            if rnd == depth:
+                break
+            for i, plan in enumerate(plans):
+                if rnd < len(plan):
+                    lname, occ, kind = plan[rnd]
+                    if lname not in g.labels:
+                        raise fw.Broken('correspondence', 'step %r not found in the generated pipeline' % lname)
+                    lid = g.labels.index(lname)
+                    pos = [k for k, l in enumerate(outs[i][2]) if l == lid]
+                    if occ >= len(pos):
+                        raise fw.Broken('correspondence', 'model trace of %r does not reach occurrence %d of %s'
+                                        % (cases[i], occ, lname))
+                    resolved[i].append((pos[occ], kind))
+        self.model_pairs = list(zip(inputs, outs))
+        return [{'raised': o[0], 'world': o[1][:5], 'lost': o[1][5], 'steps': len(o[2]),
+                 'fault_steps': resolved[i]} for i, o in enumerate(outs)]
+
+    # ---------------------------------------------------------------- K
+    def run_impl_cases(self, cases, small_n):
+        chunks = max(1, min(6, len(cases) // 12))
+        parts = [cases[i::chunks] for i in range(chunks)]
+
+        def one(part):
+            return fw.run_impl('impl_c20.py', {'configs': CONFIGS, 'cases': part, 'small_n': small_n}, timeout=1500)
+        with ThreadPoolExecutor(max_workers=chunks) as ex:
+            rs = list(ex.map(one, parts))
+        res = [None] * len(cases)
+        for ci, r in enumerate(rs):
+            for j, o in enumerate(r['cases']):
+                res[ci + j * chunks] = o
+        return rs[0]['refs'], res
+
+    def correspondence(self):
+        small_n = 60 if self.tier == 'quick' else 160
+        # reference runs first: molecule / job counts parametrise the crash points
+        probe = fw.run_impl('impl_c20.py', {'configs': CONFIGS, 'cases': [], 'small_n': small_n})
+        self.refs = probe['refs']
+        bad = {k: v for k, v in self.refs.items() if v['raised'] or v['world'] != [3, 1, 1, 1, 1]}
+        self.n_mol = {k: v['molecules'] for k, v in self.refs.items()}
+        self.n_jobs = {k: v['jobs'] for k, v in self.refs.items()}
+        cases = self.cases()
+        corpus = self.load_corpus()
+        cases = corpus + cases
+        refs, res = self.run_impl_cases(cases, small_n)
+        self.impl_cases, self.impl_res = cases, res
+        fired = [bool(r.get('fired')) for r in res]
+        keyset = set(json.dumps(c, sort_keys=True) for c, fr in zip(cases, fired) if fr and c['faults'])
+        hist = {}
+        for c in cases:
+            for f in c['faults'] or [{'point': 'none'}]:
+                hist[f['point']] = hist.get(f['point'], 0) + 1
+        outcome_hist = {}
+        for r in res:
+            k = describe(r['world']) + ' raised=%s' % r.get('raised') if 'world' in r else 'harness_error'
+            outcome_hist[k] = outcome_hist.get(k, 0) + 1
+        self.cov.update({
+            'evaluations': len(cases) + len(self.refs),
+            'distinct_nontrivial': len(keyset),
+            'rule': 'one evaluation = one real run of run_multiome_tagging_cmd on a copy of a /repo/data BAM '
+                    '(chic_test_region.bam: 17 records; first %d records of mini_nla_test.bam) with faults injected by '
+                    'monkey-patching, then reading back status file and output BAM; non-trivial = an injected fault '
+                    'actually fired; distinct by (configuration, previous output present, fault list)' % small_n,
+            'configs': {k: {'molecules': self.n_mol[k], 'jobs': self.n_jobs[k], 'records': self.refs[k]['n_records']} for k in self.refs},
+            'fault_point_histogram': hist, 'outcome_histogram': outcome_hist,
+            'faults_fired': sum(fired), 'cases_over_previous_output': sum(1 for c in cases if c.get('pre') == 'prev_ok'),
+            'multi_fault_cases': sum(1 for c in cases if len(c['faults']) > 1),
+            'precondition_hit_rate': 1.0,
+            'exhaustive': self.tier != 'quick',
+            'exhaustive_note': 'thorough: every molecule index of both single-process configurations for mol_next / '
+                               'write_tags / write_pysam; every job index for worker failures',
+            'samples': [{'input': cases[i], 'impl': {k: res[i].get(k) for k in ('world', 'raised', 'error')}}
+                        for i in (1, len(cases) // 3, len(cases) - 2)],
+        })
+        if bad:
+            raise fw.Broken('correspondence', 'fault-free reference run does not end with status OK and a complete '
+                            'sorted indexed output: %r' % bad)
+        herr = [(c, r) for c, r in zip(cases, res) if 'harness_error' in r]
+        if herr:
+            raise fw.Broken('correspondence', 'harness error: %r' % (herr[0],))
+        if not self.model_ok or self.gen is None:
+            return
+        pred = self.predict(cases)
+        dis = []
+        for c, r, m in zip(cases, res, pred):
+            if r['world'] != m['world'] or min(r['raised'], 3) != m['raised']:
+                dis.append({'input': c, 'impl': {'world': describe(r['world']), 'raised': r['raised'], 'error': r.get('error')},
+                            'model': {'world': describe(m['world']), 'raised': m['raised'], 'fault_steps': m['fault_steps']}})
+        self.cov['traces_validated_against_impl'] = len(cases)
+        self.cov['disagreements'] = len(dis)
+        # specification (mode 2) on the implementation's outcomes
+        spec = fw.run_model('C20', 2, [[r['world'], 1 if r['raised'] else 0] for r in res])
+        self.cov['spec_on_impl'] = {'inv_true': sum(1 for s in spec if s[0]), 'fail_not_ok_true': sum(1 for s in spec if s[1]),
+                                    'of': len(spec)}
+        idx = sorted(self.rng.sample(range(len(self.model_pairs)), min(100, len(self.model_pairs))))
+        ok, nm, log = fw.vm_crosscheck('C20', 0, [self.model_pairs[i] for i in idx])
+        self.cov['vm_compute_crosscheck'] = {'cases': len(idx), 'mismatches': nm}
+        if not ok:
+            raise fw.Broken('extraction', 'vm_compute and extracted model disagree: ' + log[-800:])
+        viol = [i for i, s in enumerate(spec) if not (s[0] and s[1])]
+        if viol:
+            raise fw.Broken('correspondence', 'the specification (invb / fail_not_ok) is false on %d real outcomes; first: %r -> %s'
+                            % (len(viol), cases[viol[0]], describe(res[viol[0]]['world'])))
+        if dis:
+            self.dis = dis
+            self.save_corpus([d['input'] for d in dis[:5]])
+            raise fw.Broken('correspondence', 'model and implementation disagree on %d of %d fault cases; first: %r'
+                            % (len(dis), len(cases), dis[0]))
+
+    # ---------------------------------------------------------------- corpus
+    def load_corpus(self):
+        d = os.path.join(fw.VERIF, 'corpus', 'C20')
+        out = []
+        if os.path.isdir(d):
+            for fn in sorted(os.listdir(d)):
+                if fn.endswith('.json'):
+                    try:
+                        c = json.load(open(os.path.join(d, fn)))
+                        if c.get('config') in CONFIGS:
+                            out.append({'config': c['config'], 'faults': c['faults'], 'pre': c.get('pre', 'fresh')})
+                    except Exception:
+                        pass
+        return out
+
+    def save_corpus(self, cases):
+        d = os.path.join(fw.VERIF, 'corpus', 'C20')
+        os.makedirs(d, exist_ok=True)
+        for c in cases:
+            name = fw.canon_hash(json.dumps(c, sort_keys=True)) + '.json'
+            with open(os.path.join(d, name), 'w') as f:
+                json.dump(c, f)
+
+    # ---------------------------------------------------------------- search
+    def search(self):
+        """The statement evaluated on the real outcomes (python transcription of invb and of
+        'failed -> status is not OK'; the model is not needed)."""
+        if getattr(self, 'impl_res', None) is None:
+            try:
+                small_n = 60
+                probe = fw.run_impl('impl_c20.py', {'configs': CONFIGS, 'cases': [], 'small_n': small_n})
+                self.refs = probe['refs']
+                self.n_mol = {k: v['molecules'] for k, v in self.refs.items()}
+                self.n_jobs = {k: v['jobs'] for k, v in self.refs.items()}
+                self.impl_cases = self.load_corpus() + self.cases()
+                _, self.impl_res = self.run_impl_cases(self.impl_cases, small_n)
+            except Exception as e:
+                self.notes.append('search could not run the implementation: %r' % (e,))
+                return
+        best = {}
+        for c, r in zip(self.impl_cases, self.impl_res):
+            if 'world' not in r:
+                continue
+            w = r['world']
+            bad = None
+            if not inv_py(w):
+                bad = 'status file says "Reached end. All ok!" but the output is not complete/sorted/indexed'
+            elif r['raised'] and w[0] == 3 and c.get('pre') != 'prev_ok':
+                bad = 'the run failed (%s) but the status file says "Reached end. All ok!"' % r.get('error')
+            elif not r['raised'] and not c['faults'] and w != [3, 1, 1, 1, 1]:
+                bad = 'a fault-free run does not end with status OK and a complete sorted indexed output'
+            if bad:
+                pts = '+'.join(f['point'] for f in c['faults']) or 'none'
+                pipe = 'multiprocess' if CONFIGS[c['config']]['mp'] else 'single'
+                key = 'ok_early:%s:%s' % (pipe, pts)
+                size = len(c['faults']) * 1000 + sum(f.get('after', 0) for f in c['faults']) + (500 if c.get('pre') == 'prev_ok' else 0)
+                if key not in best or size < best[key][0]:
+                    best[key] = (size, {
+                        'key': key,
+                        'what': '%s; %s pipeline, method %s, injected: %s; observed %s, exception: %s'
+                                % (bad, pipe, CONFIGS[c['config']]['method'], json.dumps(c['faults']), describe(w), r.get('error')),
+                        'input': {'command': 'run_multiome_tagging_cmd(<copy of /repo/data/%s> -method %s%s -o out.bam)'
+                                  % ('chic_test_region.bam' if CONFIGS[c['config']]['bam'] == 'chic' else 'mini_nla_test.bam (first records)',
+                                     CONFIGS[c['config']]['method'], ' --multiprocess -tagthreads 2' if CONFIGS[c['config']]['mp'] else ''),
+                                  'case': c},
+                        'impl': {'world': describe(w), 'status_text': r.get('status_text'), 'raised': r['raised'], 'error': r.get('error'),
+                                 'records_in_output': r.get('n_records')},
+                        'expected': 'status != "Reached end. All ok!" unless the output exists, is complete, sorted and indexed'})
+        for k in sorted(best, key=lambda k: best[k][0]):
+            self.witnesses.append(best[k][1])
+
+    def replay(self, data):
+        w = data.get('witness')
+        print(json.dumps(w or data.get('no_longer_checks'), indent=1, default=str)[:4000])
+        if w and isinstance(w.get('input'), dict) and 'case' in w['input']:
+            c = w['input']['case']
+            r = fw.run_impl('impl_c20.py', {'configs': CONFIGS, 'cases': [c], 'small_n': 60})
+            o = r['cases'][0]
+            print('replayed on %s: %s raised=%s error=%s' % (fw.REPO, describe(o['world']), o['raised'], o.get('error')))
+            bad = (not inv_py(o['world'])) or (o['raised'] and o['world'][0] == 3 and c.get('pre') != 'prev_ok')
+            print('VIOLATION reproduced' if bad else 'not reproduced on this tree')
+            return 1 if bad else 0
+        return self.run()
